@@ -543,28 +543,60 @@ func runConcurrent(t *testing.T, e *vh.Env, cs *vh.Cases, st *vh.Stats) {
 		script := []string{"R0", "R0", "S1", "R1", "S2", "R2", "R2", "R0", "S2"}
 		add(runConc(t, u, c, progs, scripted(script, firstEnabled)), "conc/corpus")
 	}
-	n := 0
-	// exhaustive schedules of small programs
-	small := []struct {
-		c     concCfg
-		progs [][]sop
-	}{
-		{concCfg{TQ: 8}, [][]sop{{{Kind: "put", K: 0}}, {{Kind: "has", K: 0}, {Kind: "get", K: 0}}}},
-		{concCfg{TQ: 8, Init: []int{0}}, [][]sop{{{Kind: "delete", K: 0}}, {{Kind: "getsize", K: 0}, {Kind: "has", K: 0}}}},
-		{concCfg{TQ: 8, Init: []int{0}}, [][]sop{{{Kind: "delete", K: 0}, {Kind: "put", K: 0}}, {{Kind: "put", K: 0}, {Kind: "has", K: 0}}}},
-		{concCfg{TQ: 8, Viewer: true}, [][]sop{{{Kind: "putmany", Ks: []int{1, 0}}}, {{Kind: "put", K: 1}, {Kind: "view", K: 0}}}},
-		{concCfg{Bloom: 1, Hashes: 3, Init: []int{1}}, [][]sop{{{Kind: "put", K: 0}}, {{Kind: "has", K: 0}}}},
-		{concCfg{Bloom: 1, Hashes: 3, Init: []int{0}}, [][]sop{{{Kind: "rebuild"}}, {{Kind: "get", K: 0}, {Kind: "delete", K: 0}}}},
-		{concCfg{TQ: 8, Bloom: 1, Hashes: 3}, [][]sop{{{Kind: "put", K: 0}}, {{Kind: "rebuild"}}}},
+	// corpus: a PutMany (multi-block batch, and single-element batch = the store's Put
+	// path) that starts before a Rebuild swaps the filter and whose datastore write
+	// lands after the Rebuild's snapshot query; the Rebuild then activates and the
+	// same thread reads the key back after its PutMany has returned.  The filter
+	// must be loaded AFTER the store write (bloomcache.PutMany: b.bloom.Load() per
+	// block); a PutMany that adds to a filter pointer captured before the write
+	// loses the keys in the discarded filter and the read answers "missing".
+	for _, tq := range []int{0, 8} {
+		for _, ks := range [][]int{{0, 1}, {0}} {
+			c := concCfg{TQ: tq, Bloom: 1, Hashes: 3}
+			progs := [][]sop{{{Kind: "putmany", Ks: ks}, {Kind: "has", K: 0}, {Kind: "get", K: 0}}, {{Kind: "rebuild"}}}
+			script := []string{"R0", "R0", "R0", "S1", "S2", "R2", "R1", "R1", "R2", "R2", "S1"}
+			add(runConc(t, u, c, progs, scripted(script, firstEnabled)), "conc/corpus")
+		}
 	}
-	budget := e.Pick(150, 1500)
+	n := 0
+	// exhaustive schedules of small programs; [pre] = scripted prefix (lets the
+	// initial build finish first), [budget] overrides the default number of schedules
+	small := []struct {
+		c      concCfg
+		progs  [][]sop
+		pre    []string
+		budget int
+	}{
+		{c: concCfg{Bloom: 1, Hashes: 3}, pre: []string{"R0", "R0", "R0"}, budget: 600,
+			progs: [][]sop{{{Kind: "putmany", Ks: []int{0, 1}}, {Kind: "has", K: 0}}, {{Kind: "rebuild"}}}},
+		{c: concCfg{Bloom: 1, Hashes: 3}, pre: []string{"R0", "R0", "R0"}, budget: 600,
+			progs: [][]sop{{{Kind: "putmany", Ks: []int{0}}, {Kind: "getsize", K: 0}}, {{Kind: "rebuild"}}}},
+		{c: concCfg{TQ: 8, Bloom: 1, Hashes: 3}, pre: []string{"R0", "R0", "R0"}, budget: 600,
+			progs: [][]sop{{{Kind: "putmany", Ks: []int{1, 0}}, {Kind: "get", K: 1}}, {{Kind: "rebuild"}}}},
+		{c: concCfg{TQ: 8, Bloom: 1, Hashes: 3, Viewer: true}, pre: []string{"R0", "R0", "R0"}, budget: 600,
+			progs: [][]sop{{{Kind: "putmany", Ks: []int{0}}, {Kind: "view", K: 0}}, {{Kind: "rebuild"}}}},
+		{c: concCfg{Bloom: 1, Hashes: 3}, pre: []string{"R0", "R0", "R0"}, budget: 600,
+			progs: [][]sop{{{Kind: "put", K: 0}, {Kind: "has", K: 0}}, {{Kind: "rebuild"}}}},
+		{c: concCfg{TQ: 8}, progs: [][]sop{{{Kind: "put", K: 0}}, {{Kind: "has", K: 0}, {Kind: "get", K: 0}}}},
+		{c: concCfg{TQ: 8, Init: []int{0}}, progs: [][]sop{{{Kind: "delete", K: 0}}, {{Kind: "getsize", K: 0}, {Kind: "has", K: 0}}}},
+		{c: concCfg{TQ: 8, Init: []int{0}}, progs: [][]sop{{{Kind: "delete", K: 0}, {Kind: "put", K: 0}}, {{Kind: "put", K: 0}, {Kind: "has", K: 0}}}},
+		{c: concCfg{TQ: 8, Viewer: true}, progs: [][]sop{{{Kind: "putmany", Ks: []int{1, 0}}}, {{Kind: "put", K: 1}, {Kind: "view", K: 0}}}},
+		{c: concCfg{Bloom: 1, Hashes: 3, Init: []int{1}}, progs: [][]sop{{{Kind: "put", K: 0}}, {{Kind: "has", K: 0}}}},
+		{c: concCfg{Bloom: 1, Hashes: 3, Init: []int{0}}, progs: [][]sop{{{Kind: "rebuild"}}, {{Kind: "get", K: 0}, {Kind: "delete", K: 0}}}},
+		{c: concCfg{TQ: 8, Bloom: 1, Hashes: 3}, progs: [][]sop{{{Kind: "put", K: 0}}, {{Kind: "rebuild"}}}},
+	}
+	defBudget := e.Pick(150, 1500)
 	for i, sm := range small {
 		d := &dfs{}
 		var prev []string
+		budget := defBudget
+		if sm.budget > budget {
+			budget = sm.budget
+		}
 		for k := 0; k < budget; k++ {
 			d.depth = 0
 			var cur []string
-			npre := len(d.prefix) - 1
+			npre := len(sm.pre) + len(d.prefix) - 1
 			dbgTrail = func(depth int, act, sts string) {
 				line := act + ": " + sts
 				cur = append(cur, line)
@@ -572,7 +604,7 @@ func runConcurrent(t *testing.T, e *vh.Env, cs *vh.Cases, st *vh.Stats) {
 					t.Fatalf("replay diverged at depth %d (prefix %v):\n  before: %s\n  now:    %s", depth, d.prefix, prev[depth], line)
 				}
 			}
-			add(runConc(t, u, sm.c, sm.progs, d.choose), fmt.Sprintf("conc/exhaustive/prog%d", i))
+			add(runConc(t, u, sm.c, sm.progs, scripted(sm.pre, d.choose)), fmt.Sprintf("conc/exhaustive/prog%d", i))
 			prev = cur
 			dbgTrail = nil
 			n++
@@ -614,7 +646,7 @@ func runConcurrent(t *testing.T, e *vh.Env, cs *vh.Cases, st *vh.Stats) {
 	stressToctou(t, e, st)
 	st.Extra["concurrent"] = fmt.Sprintf("%d executed schedules (2-3 goroutines x <=4 calls over 2-3 keys, 2Q and/or Bloom layer, initial build and Rebuild "+
 		"running concurrently, enumeration errors); every datastore call parks before and after its effect; each schedule is replayed on the "+
-		"LTS model step by step in Coq and its history is checked for linearizability against the map by exhaustive search in Coq", n+1)
+		"LTS model step by step in Coq and its history is checked for linearizability against the map by exhaustive search in Coq", n+5)
 }
 
 // stressToctou looks for finding C02-2 on the real code: a block is stored once
